@@ -30,6 +30,17 @@ E1_META = {
                     "reference polynomial arithmetic (RefPoly) written from the definition, cross-checked by its own truth-table self-test"],
 }
 
+E2_META = {
+    "rule": ("each evaluation is one seeded history on one live PCBO/PCSO: an objective, then <=5 comparison (C08: also logical) constraints "
+             "interleaved with copy / refresh / info round trip / objective edits / pure observations; the per-step oracle is evaluated on the "
+             "delta observed in the live model; a run is non-trivial if a constraint created ancillas, an unsatisfiable warning was seen, a "
+             "history op (copy/refresh/info) was applied, or (C08) the end-of-run workflow oracle ran; distinct = distinct digests of the event log"),
+    "expected_probes": ["constraints_with_ancillas", "second_ancilla_bearing_constraint", "history_copy", "history_refresh", "history_info_roundtrip"],
+    "components": {"real": REAL_PY, "stub": ["none: faults are history-level (copy / refresh / info round trip between constraints, objective edits)"]},
+    "assumptions": ["integer-coefficient constraint polynomials, dyadic weights; exact truth tables (RefPoly) as oracle",
+                    "unary-slack constraints capped at 7 ancillas, <= 12 variables per truth table (C08 reduced forms <= 14)"],
+}
+
 PROPS = {
     "C13": {
         "engine": "e3",
@@ -67,20 +78,38 @@ PROPS = {
     },
     "C05": {
         "engine": "e1",
-        "quick": {"runs": 40000, "block": 1000, "wall": 75},
+        "quick": {"runs": 90000, "block": 1500, "wall": 75},
         "thorough": {"runs": 2000000, "block": 5000, "wall": 560},
         "meta": E1_META,
     },
     "C14": {
         "engine": "e1",
-        "quick": {"runs": 40000, "block": 1000, "wall": 75},
+        "quick": {"runs": 90000, "block": 1500, "wall": 75},
         "thorough": {"runs": 2000000, "block": 5000, "wall": 560},
         "meta": E1_META,
     },
     "C19": {
         "engine": "e1",
-        "quick": {"runs": 40000, "block": 1000, "wall": 75},
+        "quick": {"runs": 32000, "block": 500, "wall": 75},
         "thorough": {"runs": 2000000, "block": 5000, "wall": 560},
         "meta": E1_META,
+    },
+    "C02": {
+        "engine": "e2",
+        "quick": {"runs": 100000, "block": 2000, "wall": 75},
+        "thorough": {"runs": 1500000, "block": 5000, "wall": 560},
+        "meta": E2_META,
+    },
+    "C03": {
+        "engine": "e2",
+        "quick": {"runs": 80000, "block": 2000, "wall": 75},
+        "thorough": {"runs": 1500000, "block": 5000, "wall": 560},
+        "meta": E2_META,
+    },
+    "C08": {
+        "engine": "e2",
+        "quick": {"runs": 80000, "block": 2000, "wall": 75},
+        "thorough": {"runs": 600000, "block": 2000, "wall": 560},
+        "meta": E2_META,
     },
 }
